@@ -149,4 +149,7 @@ def load():
     ns.Shell = mods["gbasis.contractions"].GeneralizedContractionShell
     ns.parsers = mods["gbasis.parsers"]
     _API = ns
+    from .faults import precompute_excluded
+
+    precompute_excluded(ns.pkgdir)
     return ns
